@@ -5,6 +5,7 @@ import UnifexModel.Driver.Entry
 import UnifexModel.Proto.Cancellable
 import UnifexModel.Proto.DetachOnCancel
 import UnifexModel.Proto.Canary
+import UnifexModel.Proto.StopOnRequest
 
 namespace Unifex.Driver.Entries
 open Unifex.Proto
@@ -20,5 +21,9 @@ def detachoncancel : ModelEntries :=
 def canary : ModelEntries :=
   ("canary", Canary.configs.map (fun (n, c) =>
       (n, mkEntry (Canary.sys c) Canary.obsOf (Canary.final c))))
+
+def stoponrequest : ModelEntries :=
+  ("stoponrequest", StopOnRequest.configs.map (fun (n, c) =>
+      (n, mkEntry (StopOnRequest.sys c) StopOnRequest.obsOf (StopOnRequest.final c))))
 
 end Unifex.Driver.Entries
